@@ -83,7 +83,7 @@ fn has_special_coef(t: &T, w: u32) -> bool {
     }
 }
 
-fn check_case<C: CellType>(c: &ExprCase) -> Result<(bool, Vec<&'static str>), String> {
+pub fn check_case<C: CellType>(c: &ExprCase) -> Result<(bool, Vec<&'static str>), String> {
     let t = &c.tree;
     let env = &c.env;
     let e = build::<C>(t);
@@ -281,6 +281,12 @@ impl Property for C15 {
             Ok(Err(msg)) => Outcome::Fail(Fail { kind: "algebra".into(), detail: format!("i{bits}: {msg}"), cfg: None }),
             Err(p) => Outcome::Fail(Fail { kind: "panic".into(), detail: format!("i{bits}: {p}"), cfg: None }),
         }
+    }
+    fn fuzz_target(&self) -> Option<&'static str> {
+        Some("expr")
+    }
+    fn decode_fuzz(&self, bytes: &[u8]) -> Option<ExprCase> {
+        crate::fuzzdec::expr_case(&mut arbitrary::Unstructured::new(bytes)).ok()
     }
     fn floors(&self, tier: Tier) -> Vec<(&'static str, u64)> {
         let q = if tier == Tier::Quick { 1 } else { 40 };
